@@ -1908,6 +1908,16 @@ Proof.
         rewrite I1. destruct a; auto. apply nth_upd_other. lia.
 Qed.
 
+Lemma ui_nth ps i : i < List.length ps ->
+  nth i (map (fun p => VN [p_default p] [None] None [] []) ps) dv = VN [p_default (nth i ps dparam)] [None] None [] [].
+Proof.
+  intros Hi. rewrite (nth_indep _ dv ((fun p => VN [p_default p] [None] None [] []) dparam)) by (now rewrite map_length).
+  exact (map_nth (fun p => VN [p_default p] [None] None [] []) ps dparam i).
+Qed.
+
+Lemma default_nth ps i : nth i (map p_default ps) None = p_default (nth i ps dparam).
+Proof. exact (map_nth p_default ps dparam i). Qed.
+
 Definition built_ok (d : mdef) (l : string) (s : snode) (v : vnode) : Prop :=
   wired d s /\ coh d s v /\ s_label_of s = l /\ v_ins v = map p_default (d_params d) /\
   (forall lo, nth lo (v_outs v) None = None) /\ v_cache v = None.
@@ -1990,7 +2000,7 @@ Proof.
       split; [exact P2|].
       intros k Hk1 Hk2. rewrite N2 by lia. simpl. rewrite Nat.sub_0_r.
       replace (nth_error (s_args (nth j body dstmt)) k) with (@None arg) by (symmetry; now apply nth_error_None).
-      rewrite I'. change (@None Z) with (p_default dparam). now rewrite map_nth.
+      rewrite I'. apply default_nth.
     - destruct Hm as [-> ->]. simpl. rewrite !map_length.
       split; auto. split; auto. split; auto. split; [intros [|[|lo]]; reflexivity|].
       split.
@@ -2070,14 +2080,588 @@ Proof.
     + unfold coh_level. fold np nb. rewrite !map_length, repeat_length. fold np.
       split; auto. split; auto. split; auto. split; auto.
       split; [|split; [|split; [exact D1|split; [exact D2|split; [|split]]]]].
-      * intros i Hi. rewrite (nth_indep _ dv ((fun p => VN [p_default p] [None] None [] []) dparam)) by (now rewrite map_length).
-        rewrite map_nth. simpl. split; auto. split; auto. discriminate.
-      * intros i Hi _. rewrite (nth_indep _ dv ((fun p => VN [p_default p] [None] None [] []) dparam)) by (now rewrite map_length).
-        rewrite map_nth. simpl. change (@None Z) with (p_default dparam). now rewrite map_nth.
+      * intros i Hi. rewrite ui_nth by auto. simpl. split; auto. split; auto. discriminate.
+      * intros i Hi _. rewrite ui_nth by auto. simpl. now rewrite default_nth.
       * intros j Hj. rewrite Hkid2, <- Hkid0. apply D4; auto.
-      * intros i o Hi Ho. rewrite nth_repeat_same.
-        rewrite (nth_indep _ dv ((fun p => VN [p_default p] [None] None [] []) dparam)) by (now rewrite map_length).
-        rewrite map_nth. reflexivity.
+      * intros i o Hi Ho. rewrite nth_repeat_same. rewrite ui_nth by auto. reflexivity.
       * intros j lo o Hj Ho. rewrite nth_repeat_same. destruct (DQ j Hj) as [Qo _]. now rewrite Qo.
     + intros j Hj. destruct (DQ j Hj) as [_ Qc]. rewrite Hkid2, <- Hkid0. exact Qc.
+Qed.
+
+(* ================================================================================== *)
+(* L. histories of macro-level operations                                               *)
+Definition macro_level (o : op) : Prop :=
+  match o with OSetIn [] _ _ => True | ORun => True | _ => False end.
+
+Lemma set_in_out_of_range d s v k x : wired d s -> coh d s v -> List.length (d_params d) <= k -> set_in s v k x = v.
+Proof.
+  destruct d as [ps body rets fl]. destruct s as [|l ps' ols recvs kept uirecv sb manual order]; simpl; [tauto|].
+  intros (-> & -> & HWL & _) (HCL & _) Hk. destruct HWL as (Hlr & _). destruct HCL as (Li & _).
+  fold (kid sb). unfold set_mac_with. destruct v as [ins outs c ui vb]. simpl in *.
+  replace (nth_error recvs k) with (@None recv) by (symmetry; apply nth_error_None; lia).
+  rewrite upd_nth_overflow by lia. reflexivity.
+Qed.
+
+Lemma apply_op_coh d s v o v' n :
+  wfd d = true -> rets_distinct d = true -> wired d s -> coh d s v -> macro_level o ->
+  apply_op s v o = Some (v', n) -> coh d s v'.
+Proof.
+  intros Hwf Hrd Hw Hc Hm H. destruct o as [[|r p] k x|p l x|]; simpl in Hm; try tauto; simpl in H.
+  - inversion H; subst. rewrite set_in_at_nil.
+    destruct (Nat.ltb_spec k (List.length (d_params d))).
+    + apply set_in_coh; auto.
+    + erewrite set_in_out_of_range; eauto.
+  - destruct (run s v) as [[[v1 c1] p1]|] eqn:Er; [|discriminate]. inversion H; subst.
+    destruct (all_data (v_ins v)) eqn:Ed.
+    + destruct (run_coh d Hwf Hrd s v Hw Hc Ed) as (v2 & c2 & p2 & Er2 & Hc2 & _). congruence.
+    + (* a macro that is not ready cannot have run (unless its cache says so, which needs data) *)
+      exfalso. destruct d as [ps body rets fl]. destruct s as [|l ps' ols recvs kept uirecv sb manual order]; [simpl in Hw; tauto|].
+      rewrite run_mac in Er. unfold run_mac_with in Er. destruct v as [ins outs c ui vb]. simpl in Ed.
+      destruct (cache_hit c ins) eqn:Eh.
+      * apply cache_hit_iff in Eh. destruct Hc as (_ & Hcache & _). simpl in Hcache.
+        destruct (Hcache _ Eh) as [Hd _]. congruence.
+      * rewrite Ed in Er. discriminate.
+Qed.
+
+Lemma apply_ops_coh d s : wfd d = true -> rets_distinct d = true -> wired d s ->
+  forall ops v v', coh d s v -> Forall macro_level ops -> apply_ops s v ops = Some v' -> coh d s v'.
+Proof.
+  intros Hwf Hrd Hw. induction ops as [|o r IH]; intros v v' Hc Hall H; simpl in H.
+  - inversion H; subst; auto.
+  - destruct (apply_op s v o) as [[v1 n]|] eqn:E1; [|discriminate]. inversion Hall; subst.
+    apply (IH v1 v'); auto. apply (apply_op_coh d s v o v1 n); auto.
+Qed.
+
+(* THE MACRO IS ITS BODY: after any history of macro-level input assignments and runs, a run
+   with inputs [ins] succeeds and leaves denote d ins in the outputs *)
+Theorem equals_inlined d l s v0 ops v :
+  wfd d = true -> rets_distinct d = true -> build d l = Some (s, v0) ->
+  Forall macro_level ops -> apply_ops s v0 ops = Some v -> all_data (v_ins v) = true ->
+  exists v' calls ps, run s v = Some (v', calls, ps) /\ v_ins v' = v_ins v /\
+                      denote d (v_ins v) = Some (v_outs v').
+Proof.
+  intros Hwf Hrd Hb Hall Hops Hd. destruct (build_ok d l s v0 Hb) as (Hw & Hc & _).
+  pose proof (apply_ops_coh d s Hwf Hrd Hw ops v0 v Hc Hall Hops) as Hcv.
+  destruct (run_coh d Hwf Hrd s v Hw Hcv Hd) as (v' & c & ps & Er & _ & Hi & Hden & _).
+  exists v', c, ps. auto.
+Qed.
+
+(* ================================================================================== *)
+(* M. value links: the pairs of channels, and when they agree                           *)
+Definition all1 {A} (P : A -> Prop) : list A -> Prop :=
+  fix go (l : list A) : Prop := match l with [] => True | a :: r => P a /\ go r end.
+
+Lemma all1_nth {A} (P : A -> Prop) d l : all1 P l <-> forall j, j < List.length l -> P (nth j l d).
+Proof.
+  induction l as [|a r IH]; simpl.
+  - split; auto. intros _ j Hj; lia.
+  - rewrite IH. split.
+    + intros [Ha Hr] [|j] Hj; auto. apply Hr; lia.
+    + intros H. split; [apply (H 0); lia|]. intros j Hj. apply (H (S j)); lia.
+Qed.
+
+(* every value-linked pair of channels, at every depth, holds equal values *)
+Fixpoint synced (s : snode) (v : vnode) {struct s} : Prop :=
+  match s with
+  | SFn _ _ _ => True
+  | SMac _ ps _ recvs kept uirecv body _ _ =>
+      (forall i, i < List.length ps ->
+         match nth i recvs ROrphan with
+         | RUI i' => nth 0 (v_ins (nth i' (v_ui v) dv)) None = nth i (v_ins v) None
+         | RBody j k => nth k (v_ins (nth j (v_body v) dv)) None = nth i (v_ins v) None
+         | ROrphan => True
+         end) /\
+      (forall i o, i < List.length ps -> nth i kept false = true -> nth i uirecv None = Some o ->
+                   nth o (v_outs v) None = nth 0 (v_outs (nth i (v_ui v) dv)) None) /\
+      (forall j l o, j < List.length body -> nth l (sb_orecv (nth j body dsb)) None = Some o ->
+                     nth o (v_outs v) None = nth l (v_outs (nth j (v_body v) dv)) None) /\
+      all2 (fun e vj => synced (sb_node e) vj) body (v_body v)
+  end.
+
+Lemma coh_synced d : forall s v, wired d s -> coh d s v -> synced s v.
+Proof.
+  induction d as [ps body rets fl IH] using mdef_ind'. intros s v Hw Hc.
+  destruct s as [|l ps' ols recvs kept uirecv sb manual order]; [simpl in Hw; tauto|].
+  pose proof (wired_kids _ _ _ _ _ _ _ _ _ _ _ _ _ Hw) as [Hlen Hwk].
+  pose proof (coh_kids _ _ _ _ _ _ _ _ _ _ _ _ _ _ Hc) as Hck.
+  destruct Hw as (-> & -> & HWL & _).
+  destruct HWL as (Hlr & Hlk & Hlu & Hcfg & Hui & Hrk & Hrb & Hrb' & Hpass & Hbody).
+  destruct Hc as (HCL & _ & _).
+  destruct HCL as (Li & Lo & Lu & Lb & Hu1 & Hu2 & Hc1 & Hc2 & Hlin & Hc4u & Hc4b).
+  cbn [synced]. split; [|split; [|split]].
+  - intros i Hi. destruct (nth i kept false) eqn:Ek.
+    + rewrite (Hrk i Hi Ek). rewrite (Hu2 i Hi Ek). reflexivity.
+    + specialize (Hrb' i Hi Ek). destruct (nth i recvs ROrphan) as [i'|j k|] eqn:Er; [tauto| |exact I].
+      apply (Hc1 i j k Hi Ek Er).
+  - intros i o Hi _ Ho. apply Hc4u; auto.
+  - intros j l0 o Hj Ho. rewrite <- Hlen in Hj. apply Hc4b; auto.
+  - apply (all2_nth _ dsb dv). split; [lia|]. intros j Hj. rewrite <- Hlen in Hj.
+    specialize (Hwk j Hj). specialize (Hck j Hj). fold (kid sb j).
+    destruct (s_mac (nth j body dstmt)) as [d'|] eqn:Em.
+    + apply (IH j d' Em); tauto.
+    + rewrite Hwk. exact I.
+Qed.
+
+Theorem sync_partial d l s v0 ops v :
+  wfd d = true -> rets_distinct d = true -> build d l = Some (s, v0) ->
+  Forall macro_level ops -> apply_ops s v0 ops = Some v -> synced s v.
+Proof.
+  intros Hwf Hrd Hb Hall Hops. destruct (build_ok d l s v0 Hb) as (Hw & Hc & _).
+  apply (coh_synced d); auto. eapply apply_ops_coh; eauto.
+Qed.
+
+(* ================================================================================== *)
+(* N. shapes (kept by EVERY operation), and the directional synchronisation theorems     *)
+Fixpoint sranges (s : snode) {struct s} : Prop :=
+  match s with
+  | SFn _ _ _ => True
+  | SMac _ ps ols recvs kept uirecv body _ _ =>
+      (forall k, match nth_error recvs k with
+                 | Some (RUI i) => i < List.length ps
+                 | Some (RBody j k') => j < List.length body /\ k' < s_nins (kid body j)
+                 | _ => True
+                 end) /\
+      List.length uirecv = List.length ps /\
+      (forall i o, nth i uirecv None = Some o -> o < List.length ols) /\
+      (forall j l o, j < List.length body -> nth l (sb_orecv (nth j body dsb)) None = Some o -> o < List.length ols) /\
+      all1 (fun e => sranges (sb_node e)) body
+  end.
+
+Fixpoint vshape (s : snode) (v : vnode) {struct s} : Prop :=
+  match s with
+  | SFn _ _ a => List.length (v_ins v) = a /\ List.length (v_outs v) = 1
+  | SMac _ ps ols _ _ _ body _ _ =>
+      List.length (v_ins v) = List.length ps /\ List.length (v_outs v) = List.length ols /\
+      List.length (v_ui v) = List.length ps /\
+      (forall i, i < List.length ps -> List.length (v_ins (nth i (v_ui v) dv)) = 1 /\
+                                        List.length (v_outs (nth i (v_ui v) dv)) = 1) /\
+      all2 (fun e vj => vshape (sb_node e) vj) body (v_body v)
+  end.
+
+Lemma vshape_kids l ps ols recvs kept uirecv body manual order v :
+  vshape (SMac l ps ols recvs kept uirecv body manual order) v ->
+  List.length (v_body v) = List.length body /\ forall j, j < List.length body -> vshape (kid body j) (nth j (v_body v) dv).
+Proof.
+  cbn [vshape]. intros (_ & _ & _ & _ & H). apply (all2_nth _ dsb dv) in H as [HL H]. split; [lia|exact H].
+Qed.
+
+Lemma vshape_intro l ps ols recvs kept uirecv body manual order v :
+  List.length (v_ins v) = List.length ps -> List.length (v_outs v) = List.length ols ->
+  List.length (v_ui v) = List.length ps ->
+  (forall i, i < List.length ps -> List.length (v_ins (nth i (v_ui v) dv)) = 1 /\ List.length (v_outs (nth i (v_ui v) dv)) = 1) ->
+  List.length (v_body v) = List.length body ->
+  (forall j, j < List.length body -> vshape (kid body j) (nth j (v_body v) dv)) ->
+  vshape (SMac l ps ols recvs kept uirecv body manual order) v.
+Proof.
+  intros A B C D E F. cbn [vshape]. repeat split; auto; try apply D; auto.
+  apply (all2_nth _ dsb dv). split; [lia|exact F].
+Qed.
+
+Lemma wired_sranges d : forall s, wired d s -> sranges s.
+Proof.
+  induction d as [ps body rets fl IH] using mdef_ind'. intros s Hw.
+  destruct s as [|l ps' ols recvs kept uirecv sb manual order]; [simpl in Hw; tauto|].
+  pose proof (wired_kids _ _ _ _ _ _ _ _ _ _ _ _ _ Hw) as [Hlen Hwk].
+  destruct Hw as (-> & -> & HWL & _).
+  pose proof (fun j k a => arg_lt_nins _ _ _ _ _ _ _ _ _ _ j k a HWL) as Hargk.
+  destruct HWL as (Hlr & Hlk & Hlu & Hcfg & Hui & Hrk & Hrb & Hrb' & Hpass & Hbody).
+  cbn [sranges]. rewrite map_length. split; [|split; [auto|split; [|split]]].
+  - intros k. destruct (nth_error recvs k) as [r|] eqn:Ek; auto.
+    apply nth_error_nth2 with (d := ROrphan) in Ek as [Ek Hk]. rewrite Hlr in Hk.
+    destruct (nth k kept false) eqn:Ekept.
+    + rewrite (Hrk k Hk Ekept) in Ek. subst r. exact Hk.
+    + specialize (Hrb' k Hk Ekept). rewrite Ek in Hrb'. destruct r as [i|j k'|]; auto; [tauto|].
+      destruct Hrb' as [Hj Ha]. rewrite <- Hlen. split; auto. eapply Hargk; eauto.
+  - intros i o Ho. destruct (Nat.ltb_spec i (List.length ps)) as [Hi|Hi].
+    + rewrite (Hui i Hi) in Ho. apply last_idx_some in Ho. lia.
+    + rewrite nth_overflow in Ho by lia. discriminate.
+  - intros j lo o Hj Ho. rewrite <- Hlen in Hj. destruct (Hbody j Hj) as (_ & _ & HLo & _ & Hor).
+    destruct (Nat.ltb_spec lo (s_nouts (sb_node (nth j sb dsb)))) as [Hl|Hl].
+    + rewrite (Hor lo Hl) in Ho. apply last_idx_some in Ho. lia.
+    + rewrite nth_overflow in Ho by lia. discriminate.
+  - apply (all1_nth _ dsb). intros j Hj. rewrite <- Hlen in Hj. specialize (Hwk j Hj). fold (kid sb j).
+    destruct (s_mac (nth j body dstmt)) as [d'|] eqn:Em.
+    + apply (IH j d' Em). tauto.
+    + rewrite Hwk. exact I.
+Qed.
+
+Lemma coh_vshape d : forall s v, wired d s -> coh d s v -> vshape s v.
+Proof.
+  induction d as [ps body rets fl IH] using mdef_ind'. intros s v Hw Hc.
+  destruct s as [|l ps' ols recvs kept uirecv sb manual order]; [simpl in Hw; tauto|].
+  pose proof (wired_kids _ _ _ _ _ _ _ _ _ _ _ _ _ Hw) as [Hlen Hwk].
+  pose proof (coh_kids _ _ _ _ _ _ _ _ _ _ _ _ _ _ Hc) as Hck.
+  destruct Hw as (-> & -> & HWL & _).
+  destruct Hc as (HCL & _ & _).
+  destruct HCL as (Li & Lo & Lu & Lb & Hu1 & Hu2 & Hc1 & Hc2 & Hlin & Hc4u & Hc4b).
+  apply vshape_intro; auto; try lia.
+  - now rewrite map_length.
+  - intros i Hi. destruct (Hu1 i Hi) as [A [B _]]. auto.
+  - intros j Hj. rewrite <- Hlen in Hj. specialize (Hwk j Hj). specialize (Hck j Hj). specialize (Hlin j Hj).
+    destruct (s_mac (nth j body dstmt)) as [d'|] eqn:Em.
+    + apply (IH j d' Em); tauto.
+    + rewrite Hwk in *. simpl in *. destruct Hck as [A _]. auto.
+Qed.
+
+Lemma vshape_set_in : forall s v k x, vshape s v -> vshape s (set_in s v k x).
+Proof.
+  induction s as [l i a|l ps ols recvs kept uirecv body manual order IH] using snode_ind'; intros v k x Hv.
+  - destruct v; simpl in *. now rewrite upd_nth_length.
+  - destruct (vshape_kids _ _ _ _ _ _ _ _ _ _ Hv) as [HLb Hk].
+    cbn [vshape] in Hv. destruct Hv as (A & B & C & D & _).
+    rewrite set_in_mac. unfold set_mac_with. destruct v as [ins outs c ui vb]. simpl in *.
+    destruct (nth_error recvs k) as [[i|j k'|]|]; apply vshape_intro; simpl; rewrite ?upd_nth_length; auto.
+    + intros i' Hi'. destruct (Nat.eq_dec i' i) as [->|Hne].
+      * rewrite nth_upd_same by lia. destruct (D i Hi') as [D1 D2]. destruct (nth i ui dv) as [ins0 outs0 c0 ui0 b0]; simpl in *.
+        split; auto. destruct ins0 as [|y [|z r]]; simpl in *; auto; discriminate.
+      * rewrite nth_upd_other by auto. auto.
+    + intros j' Hj'. destruct (Nat.eq_dec j' j) as [->|Hne].
+      * rewrite nth_upd_same by lia. apply IH. auto.
+      * rewrite nth_upd_other by auto. auto.
+Qed.
+
+Lemma fn_shape_set u k x :
+  List.length (v_ins u) = 1 /\ List.length (v_outs u) = 1 ->
+  List.length (v_ins (set_fn u k x)) = 1 /\ List.length (v_outs (set_fn u k x)) = 1.
+Proof. destruct u; simpl. now rewrite upd_nth_length. Qed.
+
+Lemma vshape_set_in_at : forall s v p k x, vshape s v -> vshape s (set_in_at s v p k x).
+Proof.
+  induction s as [l i a|l ps ols recvs kept uirecv body manual order IH] using snode_ind'; intros v p k x Hv.
+  - destruct p; [rewrite set_in_at_nil; now apply vshape_set_in|exact Hv].
+  - destruct p as [|[i|j] p]; [rewrite set_in_at_nil; now apply vshape_set_in| |].
+    + destruct (vshape_kids _ _ _ _ _ _ _ _ _ _ Hv) as [HLb Hk].
+      pose proof Hv as (A & B & C & D & _). destruct v as [ins outs c ui vb]. cbn [set_in_at].
+      destruct p; [|exact Hv]. simpl in A, B, C, D, HLb, Hk. apply vshape_intro; simpl; rewrite ?upd_nth_length; auto.
+      intros i' Hi'. destruct (Nat.eq_dec i' i) as [->|Hne].
+      * rewrite nth_upd_same by lia. apply fn_shape_set. auto.
+      * rewrite nth_upd_other by auto. auto.
+    + destruct (vshape_kids _ _ _ _ _ _ _ _ _ _ Hv) as [HLb Hk].
+      pose proof Hv as (A & B & C & D & _). destruct v as [ins outs c ui vb].
+      rewrite set_in_at_body. simpl in A, B, C, D, HLb, Hk. apply vshape_intro; simpl; rewrite ?upd_nth_length; auto.
+      intros j' Hj'. destruct (Nat.eq_dec j' j) as [->|Hne].
+      * rewrite nth_upd_same by lia. replace (Nat.ltb j (List.length body)) with true by (symmetry; now apply Nat.ltb_lt).
+        apply IH. auto.
+      * rewrite nth_upd_other by auto. auto.
+Qed.
+
+Lemma vshape_set_out_at : forall s v p l x, vshape s v -> vshape s (fst (set_out_at s v p l x)).
+Proof.
+  induction s as [lab i a|lab ps ols recvs kept uirecv body manual order IH] using snode_ind'; intros v p l x Hv.
+  - destruct p; [|exact Hv]. destruct v; simpl in *. now rewrite upd_nth_length.
+  - destruct (vshape_kids _ _ _ _ _ _ _ _ _ _ Hv) as [HLb Hk].
+    pose proof Hv as (A & B & C & D & _). destruct v as [ins outs c ui vb]. simpl in A, B, C, D, HLb, Hk.
+    destruct p as [|[i|j] p].
+    + cbn [set_out_at set_out_here fst]. apply vshape_intro; simpl; rewrite ?upd_nth_length; auto.
+    + cbn [set_out_at]. destruct p; [|exact Hv].
+      destruct (nth i ui dv) as [ui_ins ui_outs ui_c ui_u ui_b] eqn:Eu. cbn [set_out_here].
+      pose proof (apply_pushes_len [nth i uirecv None] [(l, x)] outs) as Hlen.
+      destruct (apply_pushes [nth i uirecv None] [(l, x)] outs) as [outs' q]. simpl in Hlen. cbn [fst].
+      apply vshape_intro; simpl; rewrite ?upd_nth_length; auto; try lia.
+      intros i' Hi'. destruct (Nat.eq_dec i' i) as [->|Hne].
+      * rewrite nth_upd_same by lia. simpl. specialize (D i Hi'). rewrite Eu in D. simpl in D.
+        rewrite upd_nth_length. exact D.
+      * rewrite nth_upd_other by auto. auto.
+    + rewrite set_out_at_body.
+      destruct (Nat.ltb_spec j (List.length body)) as [Hj|Hj].
+      * specialize (IH j (nth j vb dv) p l x (Hk j Hj)).
+        destruct (set_out_at (kid body j) (nth j vb dv) p l x) as [vj' ps']. simpl in IH.
+        pose proof (apply_pushes_len (sb_orecv (nth j body dsb)) ps' outs) as Hlen.
+        destruct (apply_pushes (sb_orecv (nth j body dsb)) ps' outs) as [outs' q]. simpl in Hlen. cbn [fst].
+        apply vshape_intro; simpl; rewrite ?upd_nth_length; auto; try lia.
+        intros j' Hj'. destruct (Nat.eq_dec j' j) as [->|Hne].
+        -- rewrite nth_upd_same by lia. exact IH.
+        -- rewrite nth_upd_other by auto. auto.
+      * simpl. rewrite upd_nth_same_val. exact Hv.
+Qed.
+
+Lemma run_fn_shape idf v v' c ps :
+  run_fn idf v = Some (v', c, ps) ->
+  List.length (v_ins v') = List.length (v_ins v) /\ (List.length (v_outs v) = 1 -> List.length (v_outs v') = 1).
+Proof.
+  destruct v as [ins outs ca ui vb]. simpl. destruct (cache_hit ca ins).
+  - intros H; inversion H; subst; auto.
+  - destruct (all_data ins); [|discriminate]. intros H; inversion H; subst; auto.
+Qed.
+
+Lemma vshape_run : forall s v v' c ps, vshape s v -> run s v = Some (v', c, ps) -> vshape s v'.
+Proof.
+  induction s as [l i a|l pars ols recvs kept uirecv body manual order IH] using snode_ind'; intros v v' c ps Hv Hr.
+  - cbn [run] in Hr. destruct (run_fn_shape _ _ _ _ _ Hr) as [A B]. simpl in *. destruct Hv. split; [congruence|auto].
+  - destruct (vshape_kids _ _ _ _ _ _ _ _ _ _ Hv) as [HLb Hk].
+    pose proof Hv as (A & B & C & D & _). rewrite run_mac in Hr. unfold run_mac_with in Hr.
+    destruct v as [ins outs ca ui vb]. simpl in A, B, C, D, HLb, Hk.
+    destruct (cache_hit ca ins); [inversion Hr; subst; exact Hv|].
+    destruct (all_data ins); [|discriminate].
+    set (step := step_kid _ _ kept uirecv (cinfo_of body)) in Hr.
+    set (good := fun st : mstate =>
+                   List.length (ms_outs st) = List.length ols /\ List.length (ms_ui st) = List.length pars /\
+                   (forall i, i < List.length pars -> List.length (v_ins (nth i (ms_ui st) dv)) = 1 /\
+                                                       List.length (v_outs (nth i (ms_ui st) dv)) = 1) /\
+                   List.length (ms_body st) = List.length body /\
+                   (forall j, j < List.length body -> vshape (kid body j) (nth j (ms_body st) dv))).
+    assert (Hstep : forall st r st', good st -> step st r = Some st' -> good st').
+    { intros st r st' (G1 & G2 & G3 & G4 & G5) Hs. unfold step, step_kid in Hs. destruct r as [i|j].
+      - destruct (nth i kept false); [|inversion Hs; subst; unfold good; repeat split; auto; apply G3; auto].
+        destruct (run_fn true (nth i (ms_ui st) dv)) as [[[u' cc] pp]|] eqn:Eu; [|discriminate].
+        inversion Hs; subst st'. unfold absorb.
+        pose proof (apply_pushes_len [nth i uirecv None] pp (ms_outs st)) as Hl.
+        destruct (apply_pushes [nth i uirecv None] pp (ms_outs st)) as [o' q]. simpl in *.
+        destruct (run_fn_shape _ _ _ _ _ Eu) as [S1 S2]. unfold good. cbn [ms_outs ms_ui ms_body].
+        split; [exact (eq_trans Hl G1)|]. split; [now rewrite upd_nth_length|]. split; [|auto].
+        intros i' Hi'. destruct (Nat.eq_dec i' i) as [->|Hne].
+        + rewrite nth_upd_same by lia. destruct (G3 i Hi'). split; [congruence|auto].
+        + rewrite nth_upd_other by auto. auto.
+      - destruct (nth j (cinfo_of body) ([], [])) as [conns orecv].
+        set (vj := fetch_from _ _ _ conns 0 _) in Hs.
+        destruct (run (kid body j) vj) as [[[vj' cc] pp]|] eqn:Ej; [|discriminate].
+        inversion Hs; subst st'. unfold absorb.
+        pose proof (apply_pushes_len orecv pp (ms_outs st)) as Hl.
+        destruct (apply_pushes orecv pp (ms_outs st)) as [o' q]. simpl in *. unfold good. cbn [ms_outs ms_ui ms_body].
+        split; [exact (eq_trans Hl G1)|]. split; [auto|]. split; [auto|]. split; [now rewrite upd_nth_length|].
+        intros j' Hj'. destruct (Nat.eq_dec j' j) as [->|Hne].
+        + rewrite nth_upd_same by lia. apply (IH j vj vj' cc pp); auto.
+          unfold vj. apply (fetch_from_spec (kid body j) (ms_ui st) (ms_body st) conns 0 (nth j (ms_body st) dv)
+                              (List.length conns) (vshape (kid body j))); auto.
+          intros v0 k x _. apply vshape_set_in.
+        + rewrite nth_upd_other by auto. auto. }
+    assert (Hfold : forall rest st st', good st -> fold_opt step rest st = Some st' -> good st').
+    { induction rest as [|r rest IHr]; intros st st' Hg Hf; simpl in Hf.
+      - inversion Hf; subst; auto.
+      - destruct (step st r) as [st1|] eqn:E1; [|discriminate].
+        apply (IHr st1 st'); [apply (Hstep st r st1); auto|exact Hf]. }
+    destruct (fold_opt step order (MS outs ui vb 0 [])) as [stf|] eqn:Ef; [|discriminate].
+    inversion Hr; subst v'.
+    assert (Hg0 : good (MS outs ui vb 0 [])) by (unfold good; simpl; repeat split; auto; apply D; auto).
+    destruct (Hfold order _ _ Hg0 Ef) as (G1 & G2 & G3 & G4 & G5).
+    apply vshape_intro; simpl; auto.
+Qed.
+
+Lemma apply_op_vshape s v o v' n : vshape s v -> apply_op s v o = Some (v', n) -> vshape s v'.
+Proof.
+  intros Hv H. destruct o as [p k x|p l x|]; simpl in H.
+  - inversion H; subst. now apply vshape_set_in_at.
+  - inversion H; subst. now apply vshape_set_out_at.
+  - destruct (run s v) as [[[v1 c1] p1]|] eqn:Er; [|discriminate]. inversion H; subst. eapply vshape_run; eauto.
+Qed.
+
+Lemma apply_ops_vshape s : forall ops v v', vshape s v -> apply_ops s v ops = Some v' -> vshape s v'.
+Proof.
+  induction ops as [|o r IH]; intros v v' Hv H; simpl in H.
+  - inversion H; subst; auto.
+  - destruct (apply_op s v o) as [[v1 n]|] eqn:E1; [|discriminate].
+    apply (IH v1 v'); auto. eapply apply_op_vshape; eauto.
+Qed.
+
+Lemma sranges_kids l ps ols recvs kept uirecv body manual order :
+  sranges (SMac l ps ols recvs kept uirecv body manual order) -> forall j, j < List.length body -> sranges (kid body j).
+Proof. cbn [sranges]. intros (_ & _ & _ & _ & H). intros j Hj. exact (proj1 (all1_nth _ dsb body) H j Hj). Qed.
+
+(* the child inputs a macro input is linked to, through any nesting *)
+Fixpoint down_chain (s : snode) (k : nat) {struct s} : list (list kidref * nat) :=
+  match s with
+  | SFn _ _ _ => []
+  | SMac _ _ _ recvs _ _ body _ _ =>
+      match nth_error recvs k with
+      | Some (RUI i) => [([KUI i], 0)]
+      | Some (RBody j k') =>
+          ([KBody j], k') :: map (fun pk => (KBody j :: fst pk, snd pk)) (dispatch (fun s' => down_chain s' k') [] body j)
+      | _ => []
+      end
+  end.
+
+Theorem sync_down : forall s v k x, sranges s -> vshape s v -> k < s_nins s ->
+  get_in (set_in s v k x) [] k = x /\
+  forall pk, In pk (down_chain s k) -> get_in (set_in s v k x) (fst pk) (snd pk) = x.
+Proof.
+  induction s as [l i a|l ps ols recvs kept uirecv body manual order IH] using snode_ind'; intros v k x Hs Hv Hk.
+  - simpl in *. destruct Hv as [HL _]. split; [|intros pk []].
+    unfold get_in. simpl. rewrite set_fn_ins. apply nth_upd_same. lia.
+  - destruct (vshape_kids _ _ _ _ _ _ _ _ _ _ Hv) as [HLb Hkv].
+    pose proof (sranges_kids _ _ _ _ _ _ _ _ _ Hs) as Hks.
+    pose proof Hv as (A & B & C & D & _). pose proof Hs as (R1 & _).
+    simpl in Hk. split.
+    + unfold get_in. cbn [vget]. rewrite set_in_ins. apply nth_upd_same. lia.
+    + rewrite set_in_mac. unfold set_mac_with. destruct v as [ins outs c ui vb]. simpl in A, B, C, D, HLb, Hkv.
+      cbn [down_chain]. specialize (R1 k). destruct (nth_error recvs k) as [[i|j k'|]|]; [| |intros pk Hf; destruct Hf|intros pk Hf; destruct Hf].
+      * intros pk [<-|[]]. unfold get_in. simpl. rewrite nth_upd_same by lia. rewrite set_fn_ins.
+        apply nth_upd_same. destruct (D i R1) as [-> _]. lia.
+      * destruct R1 as [Hj Hk'].
+        destruct (IH j (nth j vb dv) k' x (Hks j Hj) (Hkv j Hj) Hk') as [IH1 IH2].
+        rewrite dispatch_spec. replace (Nat.ltb j (List.length body)) with true by (symmetry; now apply Nat.ltb_lt).
+        fold (kid body j). intros pk [<-|Hin].
+        -- unfold get_in in *. simpl in *. rewrite nth_upd_same by lia. exact IH1.
+        -- apply in_map_iff in Hin as (pk' & <- & Hin'). unfold get_in in *. simpl.
+           rewrite nth_upd_same by lia. apply IH2. exact Hin'.
+Qed.
+
+(* the macro outputs a channel update reaches, through any nesting: (outputs that take the
+   value, with the path of their macro; the output index of THIS node that forwards it) *)
+Fixpoint up_chain (s : snode) (p : list kidref) (l : nat) {struct s} : list (list kidref * nat) * option nat :=
+  match p with
+  | [] => ([], Some l)
+  | r :: p' =>
+      match s with
+      | SFn _ _ _ => ([], None)
+      | SMac _ _ _ _ _ uirecv body _ _ =>
+          match r with
+          | KUI i => match p' with
+                     | [] => match (if Nat.eqb l 0 then nth i uirecv None else None) with
+                             | Some o => ([([], o)], Some o)
+                             | None => ([], None)
+                             end
+                     | _ => ([], None)
+                     end
+          | KBody j =>
+              let '(ch, top) := dispatch (fun s' => up_chain s' p' l) ([], None) body j in
+              let ch' := map (fun qo => (KBody j :: fst qo, snd qo)) ch in
+              match top with
+              | Some l' => match nth l' (sb_orecv (nth j body dsb)) None with
+                           | Some o => (([], o) :: ch', Some o)
+                           | None => (ch', None)
+                           end
+              | None => (ch', None)
+              end
+          end
+      end
+  end.
+
+Definition push_of (top : option nat) (x : val) : list (nat * val) :=
+  match top with Some o => [(o, x)] | None => [] end.
+
+Theorem sync_up : forall s v p l x, sranges s -> vshape s v ->
+  snd (set_out_at s v p l x) = push_of (snd (up_chain s p l)) x /\
+  forall qo, In qo (fst (up_chain s p l)) -> get_out (fst (set_out_at s v p l x)) (fst qo) (snd qo) = x.
+Proof.
+  induction s as [lab i a|lab ps ols recvs kept uirecv body manual order IH] using snode_ind'; intros v p l x Hs Hv.
+  - destruct p; simpl; [destruct v; simpl; split; [auto|intros qo []]|split; [auto|intros qo []]].
+  - destruct (vshape_kids _ _ _ _ _ _ _ _ _ _ Hv) as [HLb Hkv].
+    pose proof (sranges_kids _ _ _ _ _ _ _ _ _ Hs) as Hks.
+    pose proof Hv as (A & B & C & D & _). pose proof Hs as (_ & RL & R2 & R3 & _).
+    destruct v as [ins outs c ui vb]. simpl in A, B, C, D, HLb, Hkv.
+    destruct p as [|[i|j] p].
+    + simpl. split; [auto|intros qo []].
+    + cbn [set_out_at up_chain]. destruct p; [|simpl; split; [auto|intros qo []]].
+      destruct (nth i ui dv) as [ui_ins ui_outs ui_c ui_u ui_b] eqn:Eu. cbn [set_out_here].
+      cbn [apply_pushes]. destruct l as [|l]; simpl.
+      * destruct (nth i uirecv None) as [o|] eqn:Eo; simpl.
+        -- split; [auto|]. intros qo [<-|[]]. unfold get_out. simpl. apply nth_upd_same.
+           rewrite B. eapply R2; eauto.
+        -- split; [auto|intros qo []].
+      * destruct l; simpl; split; auto; intros qo [].
+    + rewrite set_out_at_body. cbn [up_chain]. rewrite dispatch_spec.
+      destruct (Nat.ltb_spec j (List.length body)) as [Hj|Hj].
+      * fold (kid body j). destruct (IH j (nth j vb dv) p l x (Hks j Hj) (Hkv j Hj)) as [IH1 IH2].
+        destruct (set_out_at (kid body j) (nth j vb dv) p l x) as [vj' ps'].
+        destruct (up_chain (kid body j) p l) as [ch top]. simpl in IH1, IH2. subst ps'.
+        destruct top as [l'|]; cbn [push_of apply_pushes].
+        -- destruct (nth l' (sb_orecv (nth j body dsb)) None) as [o|] eqn:Eo; simpl.
+           ++ split; [auto|]. intros qo [<-|Hin].
+              ** unfold get_out. simpl. apply nth_upd_same. rewrite B. eapply R3; eauto.
+              ** apply in_map_iff in Hin as (qo' & <- & Hin'). unfold get_out in *. simpl.
+                 rewrite nth_upd_same by lia. apply IH2. exact Hin'.
+           ++ split; [auto|]. intros qo Hin.
+              apply in_map_iff in Hin as (qo' & <- & Hin'). unfold get_out in *. simpl.
+              rewrite nth_upd_same by lia. apply IH2. exact Hin'.
+        -- simpl. split; [auto|]. intros qo Hin.
+           apply in_map_iff in Hin as (qo' & <- & Hin'). unfold get_out in *. simpl.
+           rewrite nth_upd_same by lia. apply IH2. exact Hin'.
+      * simpl. split; [auto|intros qo []].
+Qed.
+
+(* ================================================================================== *)
+(* O. closure, interface, non-aliasing                                                  *)
+Fixpoint closed (s : snode) {struct s} : Prop :=
+  match s with
+  | SFn _ _ _ => True
+  | SMac _ ps _ _ kept _ body _ _ =>
+      (forall j k c, j < List.length body -> In c (nth k (sb_conns (nth j body dsb)) []) ->
+         match c with
+         | SUI i => i < List.length ps /\ nth i kept false = true
+         | SBody j' l => j' < j /\ l < s_nouts (kid body j')
+         end) /\
+      all1 (fun e => closed (sb_node e)) body
+  end.
+
+Lemma wired_closed d : forall s, wfd d = true -> wired d s -> closed s.
+Proof.
+  induction d as [ps body rets fl IH] using mdef_ind'. intros s Hwf Hw.
+  destruct s as [|l ps' ols recvs kept uirecv sb manual order]; [simpl in Hw; tauto|].
+  pose proof (wired_kids _ _ _ _ _ _ _ _ _ _ _ _ _ Hw) as [Hlen Hwk].
+  pose proof (fun j => kid_nouts _ _ _ _ _ _ _ _ _ _ _ _ _ j Hw) as Hkn.
+  destruct Hw as (-> & -> & HWL & _).
+  destruct HWL as (Hlr & Hlk & Hlu & Hcfg & Hui & Hrk & Hrb & Hrb' & Hpass & Hbody).
+  simpl in Hwf. apply andb_true_iff in Hwf as [_ Hwb].
+  destruct (wf_body_spec _ _ _ _ _ Hwb) as [Hst _]. simpl in Hst.
+  cbn [closed]. split.
+  - intros j k c Hj Hin. rewrite <- Hlen in Hj. destruct (Hbody j Hj) as (_ & HLc & _ & Hconn & _).
+    destruct (Nat.ltb_spec k (s_nins (sb_node (nth j sb dsb)))) as [Hk|Hk].
+    2:{ rewrite nth_overflow in Hin by lia. destruct Hin. }
+    rewrite (Hconn k Hk) in Hin. destruct (Hst j Hj) as [Hok _]. rewrite forallb_forall in Hok.
+    destruct (nth_error (sargs body j) k) as [a|] eqn:Ea; [|destruct Hin].
+    pose proof (refs_of_ref_ok _ _ _ a (Hok a (nth_error_In _ _ Ea))) as Hr.
+    destruct a as [i|j' lo|z]; simpl in Hin.
+    + destruct (nth i kept false) eqn:Ek; [|destruct Hin]. destruct Hin as [<-|[]]. auto.
+    + destruct Hin as [<-|[]]. destruct Hr as [Hj' Hl]. rewrite firstn_length in Hj'.
+      assert (Hjj : j' < j) by lia. split; auto.
+      rewrite Hkn by lia. rewrite <- (firstn_skipn j (body_nouts body)) at 1. rewrite app_nth1; auto.
+      rewrite firstn_length. exact Hj'.
+    + destruct Hin.
+  - apply (all1_nth _ dsb). intros j Hj. rewrite <- Hlen in Hj. specialize (Hwk j Hj). fold (kid sb j).
+    destruct (s_mac (nth j body dstmt)) as [d'|] eqn:Em.
+    + destruct (Hst j Hj) as [_ Hm]. rewrite Em in Hm. apply (IH j d' Em); tauto.
+    + rewrite Hwk. exact I.
+Qed.
+
+(* the static IO of an instance is that of its definition, at every depth *)
+Fixpoint iface_ok (d : mdef) (s : snode) {struct d} : Prop :=
+  match d with MDef ps body rets _ =>
+    match s with
+    | SFn _ _ _ => False
+    | SMac _ ps' ols _ _ _ sb _ _ =>
+        ps' = ps /\ ols = map fst rets /\
+        all2 (fun st e => s_label_of (sb_node e) = s_label st /\
+                          match s_mac st with
+                          | None => sb_node e = SFn (s_label st) false (List.length (s_args st))
+                          | Some d' => iface_ok d' (sb_node e)
+                          end) body sb
+    end
+  end.
+
+Lemma wired_iface d : forall s, wired d s -> iface_ok d s.
+Proof.
+  induction d as [ps body rets fl IH] using mdef_ind'. intros s Hw.
+  destruct s as [|l ps' ols recvs kept uirecv sb manual order]; [simpl in Hw; tauto|].
+  pose proof (wired_kids _ _ _ _ _ _ _ _ _ _ _ _ _ Hw) as [Hlen Hwk].
+  destruct Hw as (-> & -> & _ & _). cbn [iface_ok]. split; auto. split; auto.
+  apply (all2_nth _ dstmt dsb). split; auto. intros j Hj. specialize (Hwk j Hj). fold (kid sb j).
+  destruct (s_mac (nth j body dstmt)) as [d'|] eqn:Em.
+  - destruct Hwk as [A B]. split; auto. apply (IH j d' Em); auto.
+  - rewrite Hwk. auto.
+Qed.
+
+(* by value: a channel of a child and the macro channel it stands for are different cells *)
+Lemma child_input_write_leaves_macro_io s v r p k x :
+  v_ins (set_in_at s v (r :: p) k x) = v_ins v /\ v_outs (set_in_at s v (r :: p) k x) = v_outs v.
+Proof.
+  destruct s as [l i a|l ps ols recvs kept uirecv body manual order]; [auto|].
+  destruct v as [ins outs c ui vb]. destruct r as [i|j].
+  - cbn [set_in_at]. destruct p; auto.
+  - rewrite set_in_at_body. auto.
+Qed.
+
+Lemma macro_output_write_leaves_children s v l x r p :
+  vget (fst (set_out_at s v [] l x)) (r :: p) = vget v (r :: p) /\
+  v_ins (fst (set_out_at s v [] l x)) = v_ins v.
+Proof. destruct s, v; simpl; destruct r; auto. Qed.
+
+Lemma child_output_write_leaves_macro_inputs s v r p l x :
+  v_ins (fst (set_out_at s v (r :: p) l x)) = v_ins v.
+Proof.
+  destruct s as [lab i a|lab ps ols recvs kept uirecv body manual order]; [auto|].
+  destruct v as [ins outs c ui vb]. destruct r as [i|j].
+  - cbn [set_out_at]. destruct p; auto. destruct (nth i ui dv). cbn [set_out_here].
+    destruct (apply_pushes _ _ outs). reflexivity.
+  - rewrite set_out_at_body. destruct (if Nat.ltb j (List.length body) then _ else _) as [vj' ps'].
+    destruct (apply_pushes _ ps' outs). reflexivity.
 Qed.
